@@ -108,6 +108,10 @@ class Project:
             s = Comp(t.name, d1, rng.choice([q for q in QT_BASES if q != t.root]), key="%s@%s" % (t.name, d1))
             user = Comp(fresh[0], d1, t.name)
             self.require(user, t.dir)
+            if rng.random() < 0.5:
+                # ... and imports its own directory explicitly AFTER the other one (`import "../lib"; import "."`)
+                user.imports.append((d1, self.spelling(d1, d1)))
+                self.features.add("same-name:own-directory-reimported-last")
             for c in (s, user):
                 c.frozen = True
                 self.comps[c.key] = c
